@@ -99,7 +99,7 @@ Respond(o) ==
 
 (* the export timeout fires while a slow answer is still being prepared: the call ends, the answer comes too late *)
 AbortSlow(o) ==
-  /\ pc = "inflight" /\ ctx = "live" /\ DeadlinePassed /\ o \in Outcomes /\ ~Unanswered(o) /\ Dur(o) > now - sentAt
+  /\ pc = "inflight" /\ ctx = "live" /\ DeadlinePassed /\ o \in Outcomes /\ ~Unanswered(o) /\ Dur(o) > 0 /\ Dur(o) >= now - sentAt
   /\ hist' = Append(hist, Item("o", o, "", ""))
   /\ pc' = "done"
   /\ Observe(<<[ev |-> "Ret", t |-> now, err |-> TRUE, ref |-> 0]>>
